@@ -1,6 +1,6 @@
 SPECIFICATION Spec
 CONSTANT Off = {}
 CONSTANT Family = "msgs"
-INVARIANTS Safe Oversize RoundTrip AvpDirect FastEqualsMachine Export
-PROPERTIES AppendOrPatch Terminates
+INVARIANTS Safe AbsEncInv Oversize RoundTrip AvpDirect FastEqualsMachine Export
+PROPERTIES AppendOrPatch RefinesEncLen Terminates
 CHECK_DEADLOCK FALSE
